@@ -1,6 +1,7 @@
 """mir_eval input validators -> lean/MirGen/Validators.lean   (AST based; mir_eval is never imported).   Part `validators` (C14).
 
-One SHALLOW Lean definition per translated validator, `Mir.Gen.<module>.<function>`, over the run-time library
+One SHALLOW Lean definition per translated validator, `Mir.GenV.<module>.<function>` (its own root namespace: other
+translator parts regenerate some of the same functions - melody.validate_voicing, util.validate_intervals - under `Mir.Gen`), over the run-time library
 `lean/MirModel/PyVal.lean` (`Mir.PyV`) and the validator model's own view of an ndarray (`Mir.Arr` = shape + row-major
 data), plus the module-level numeric constants they read (`MAX_TIME`, `MAX_FREQ`, ...) and a driver handler
 (`Mir.Gen.Validators.handler`, protocol op `gen.validators <"module.function"> <args...>`).
@@ -173,7 +174,7 @@ class Sig:
 
     @property
     def lean(self):
-        return "Mir.Gen.%s.%s" % (ident(self.module), ident(self.name))
+        return "Mir.GenV.%s.%s" % (ident(self.module), ident(self.name))
 
 
 class Module:
@@ -689,7 +690,7 @@ class FnTr:
                 t = env[node.id]
                 return E(ident(node.id), t)
             ty, term = self.m.constant(node.id, node)
-            return E("Mir.Gen.%s.%s" % (ident(self.m.name), ident(node.id)), ty)
+            return E("Mir.GenV.%s.%s" % (ident(self.m.name), ident(node.id)), ty)
         if isinstance(node, ast.Compare):
             return self.compare(node, env, binds)
         if isinstance(node, ast.BoolOp):
@@ -992,7 +993,7 @@ class Ctx:
 HEADER = """import MirModel.PyVal
 /-!
   GENERATED by harness/translate/validators.py from mir_eval's source — do not edit.
-  One shallow definition per translated input validator (`Mir.Gen.<module>.<function>`), over `Mir.PyV` and `Mir.Arr`.
+  One shallow definition per translated input validator (`Mir.GenV.<module>.<function>`), over `Mir.PyV` and `Mir.Arr`.
   Regenerated from the working tree on every run of ./check; `MirProofs/Props/C14_GenVal.lean` proves each of them equal
   to the hand-written validator model (`MirModel/Validate.lean`) for ALL arguments.  `warnings.warn(...)` is skipped.
 -/
@@ -1044,15 +1045,15 @@ def translate_all(repo):
     for modname, fname, consts, lines in emitted:
         if modname != cur:
             if cur is not None:
-                L += ["end Mir.Gen.%s" % ident(cur), ""]
-            L += ["namespace Mir.Gen.%s" % ident(modname), ""]
+                L += ["end Mir.GenV.%s" % ident(cur), ""]
+            L += ["namespace Mir.GenV.%s" % ident(modname), ""]
             cur = modname
         for c, (ty, term) in consts:
             L += ["/-- `%s.%s` (module-level constant) -/" % (modname, c),
                   "def %s : %s := %s" % (ident(c), lean_type(ty), term), ""]
         L += lines + [""]
     if cur is not None:
-        L += ["end Mir.Gen.%s" % ident(cur), ""]
+        L += ["end Mir.GenV.%s" % ident(cur), ""]
     rows = []
     for modname, fname, consts, lines in emitted:
         sig = ctx.sigs[(modname, fname)]
@@ -1082,7 +1083,7 @@ def generate(repo, outdir):
     text, sigs, problems = translate_all(repo)
     os.makedirs(outdir, exist_ok=True)
     write_if_changed(os.path.join(outdir, "Validators.lean"), text)
-    obligations = ["Mir.Gen.%s.%s" % (mn, fn) for mn, fn in WANTED if (mn, fn) in sigs]
+    obligations = ["Mir.GenV.%s.%s" % (mn, fn) for mn, fn in WANTED if (mn, fn) in sigs]
     probs = [{"name": "validators: %s.%s" % (mn, fn), "detail": "outside the translated subset: " + d}
              for mn, fn, d in problems]
     return obligations, probs
